@@ -728,14 +728,14 @@ func (x *Run) execUnOp(fr *Frame, st *State, ins *ssa.UnOp, outs *[]Outcome) {
 			// event's result says which, although the code cannot see it
 			ok := x.freshVal(st, "recvok", types.Typ[types.Bool])
 			st.events = append(st.events, Event{Name: recvName(v), Args: []Val{v, r}, Ret: ok})
-			closed := sel(x.arr(st, x.chClosedFor(v, ins.X.Type())), v.T)
+			closed := x.awaitClosed(st, v, ins.X.Type())
 			st.assume(implies(not(closed), ok.T))
 			st.assume(implies(not(ok.T), eq(r.T, x.d.zero(ct.Elem()))))
 		}
 		if ins.CommaOk {
 			ok := x.freshVal(st, "recvok", types.Typ[types.Bool])
 			st.events = append(st.events, Event{Name: recvName(v), Args: []Val{v, r}, Ret: ok})
-			closed := sel(x.arr(st, x.chClosedFor(v, ins.X.Type())), v.T)
+			closed := x.awaitClosed(st, v, ins.X.Type())
 			st.assume(implies(not(closed), ok.T))
 			st.assume(implies(not(ok.T), eq(r.T, x.d.zero(ct.Elem()))))
 			fr.env[ins] = Val{S: "Tuple", Ty: ins.Type(), Tup: []Val{r, ok}}
